@@ -4,6 +4,7 @@ import (
 	"context"
 	"fmt"
 	"golang.org/x/sys/unix"
+	gofs "io/fs"
 	"os"
 	"path"
 	"path/filepath"
@@ -99,7 +100,7 @@ func init() {
 	core.Register(&core.Prop{
 		ID:    "C09",
 		Level: "exploration",
-		Rule: "random trees (adversarial name pool with bytes below and above '/', 255-byte names, all entry types incl. sockets, hard-link groups of files and of special files, depth<=6) are created on disk; fsutil.Walk, fsutil.WalkDir, FS.Walk on a sub-target and SubDirFS are run and their callback sequences compared with an independent lstat/readlink/listxattr snapshot sorted component-wise. " +
+		Rule: "Plus (1 case of 50) trees deeper than PATH_MAX built relative to directory descriptors - a walk that returns nil has reported every entry - and sub-root names that are no path element ('.', '..', '/'). random trees (adversarial name pool with bytes below and above '/', 255-byte names, all entry types incl. sockets, hard-link groups of files and of special files, depth<=6) are created on disk; fsutil.Walk, fsutil.WalkDir, FS.Walk on a sub-target and SubDirFS are run and their callback sequences compared with an independent lstat/readlink/listxattr snapshot sorted component-wise. " +
 			"non-trivial = tree that has an order-sensitive sibling set (directory 'x' with children next to 'x<byte below />...'), a link group or a special file; distinct by tree fingerprint",
 		Assumptions: []string{"runs as root on a file system with mknod, user.* and trusted.* xattrs", "the tree is not modified during the walk"},
 		Cases: func(tier string) int {
@@ -114,10 +115,82 @@ func init() {
 	})
 }
 
+// c09Deep: a tree deeper than PATH_MAX (built relative to directory
+// descriptors). The walk works with full path names and may fail there; what
+// it may not do is return success having reported only a part of the tree.
+func c09Deep(c *core.Ctx, r *core.Result) *core.Result {
+	root := filepath.Join(c.Dir, "deep")
+	if err := os.Mkdir(root, 0755); err != nil {
+		r.Inconclusive = err.Error()
+		return r
+	}
+	fd, err := unix.Open(root, unix.O_RDONLY|unix.O_DIRECTORY, 0)
+	if err != nil {
+		r.Inconclusive = err.Error()
+		return r
+	}
+	name := strings.Repeat("d", 200)
+	levels := 22 + c.Index%5
+	made := 0
+	for i := 0; i < levels; i++ {
+		if ffd, err := unix.Openat(fd, "f", unix.O_CREAT|unix.O_WRONLY, 0644); err == nil {
+			unix.Close(ffd)
+			made++
+		}
+		if err := unix.Mkdirat(fd, name, 0755); err != nil {
+			break
+		}
+		nfd, err := unix.Openat(fd, name, unix.O_RDONLY|unix.O_DIRECTORY, 0)
+		if err != nil {
+			break
+		}
+		unix.Close(fd)
+		fd = nfd
+		made++
+	}
+	unix.Close(fd)
+	r.FP = fmt.Sprintf("deep-%d", levels)
+	r.Sample = map[string]any{"tree": fmt.Sprintf("%d nested directories with 200-byte names, a file in each", levels)}
+	if made < 2*levels {
+		r.Inconclusive = "could not build the deep tree"
+		return r
+	}
+	for _, how := range []string{"NewFS", "FilterFS"} {
+		fs, err := fsutil.NewFS(root)
+		if err == nil && how == "FilterFS" {
+			fs, err = fsutil.NewFilterFS(fs, &fsutil.FilterOpt{})
+		}
+		if err != nil {
+			r.Inconclusive = err.Error()
+			return r
+		}
+		n := 0
+		werr := fs.Walk(context.Background(), "", func(p string, d gofs.DirEntry, err error) error {
+			if err != nil {
+				return err
+			}
+			n++
+			return nil
+		})
+		if werr == nil && n != made {
+			r.Violate("walk-truncated", "%s walk of a tree of %d entries (deeper than PATH_MAX) returned nil after reporting %d of them", how, made, n)
+		} else if werr != nil {
+			r.Count("walks_of_trees_deeper_than_PATH_MAX_that_fail", 1)
+		} else {
+			r.Count("walks_of_trees_deeper_than_PATH_MAX_complete", 1)
+		}
+	}
+	r.Nontrivial = true
+	return r
+}
+
 func c09Run(c *core.Ctx) *core.Result {
 	r := &core.Result{}
 	if !needRoot(r) {
 		return r
+	}
+	if c.Index%50 == 31 {
+		return c09Deep(c, r)
 	}
 	o := tree.DefaultOpt()
 	o.MaxDepth = 6
@@ -370,6 +443,28 @@ func c09Run(c *core.Ctx) *core.Result {
 	}
 	for _, nm := range sortedNames {
 		want = append(want, prefixed(snap.Entries, nm, tree.Entry{Path: nm, Type: tree.Dir, Perm: 0750, UID: 7, GID: 8, Mtime: 12345})...)
+	}
+	// (a sub-root "name" that is no path element - ".", "..", "/" - must
+	// be refused; where it is accepted the walk has to obey the clauses all
+	// the same: never the root itself, strictly ascending, every entry once)
+	if br := core.NewRand(core.Mix(c.Seed, "C09-subroot-names", c.Index)); br.P(1, 6) {
+		bad := core.Pick(br, []string{".", "..", "/"})
+		bdirs := []fsutil.Dir{{FS: fs, Stat: &types.Stat{Path: bad, Mode: uint32(os.ModeDir | 0750)}}, {FS: fs, Stat: &types.Stat{Path: "a", Mode: uint32(os.ModeDir | 0750)}}}
+		if bfs, err := fsutil.SubDirFS(bdirs); err != nil {
+			r.Count("sub_root_names_that_are_no_path_element_refused", 1)
+		} else if sts, err := walkStats(bfs, "/"); err == nil {
+			for i, st := range sts {
+				cp := path.Clean("/" + st.Path)
+				if st.Path == "." || st.Path == ".." || strings.HasPrefix(st.Path, "/") || strings.HasPrefix(st.Path, "../") || cp == "/" {
+					r.Violate("composite-name", "SubDirFS accepts the sub-root name %q and its walk reports %q: the root itself or a path outside it", bad, st.Path)
+					break
+				}
+				if i > 0 && tree.CmpPath(sts[i-1].Path, st.Path) >= 0 {
+					r.Violate("composite-name", "SubDirFS accepts the sub-root name %q and its walk reports %q after %q: not strictly ascending", bad, st.Path, sts[i-1].Path)
+					break
+				}
+			}
+		}
 	}
 	sfs, err := fsutil.SubDirFS(dirs)
 	if err != nil {
